@@ -32,6 +32,9 @@ const extraRule = "THIRD LIST (scenarios after the API family). HOST NAMES AMONG
 // startRule describes the fourth part of the case list.
 const startRule = "START-STATE FAMILY (scenarios after the third list; run on a pool of their own next to the other lists because a scenario of it that finds Stop blocked spends 40+36 s waiting): the application constructs the service (NewChainService on a fresh directory, one or two honest peers configured) and (a) never calls Start, or (b) configures Config.HeadersImport with a pair of files in chainimport's format cut from the honest chain that the importer must refuse before it writes anything (file of another network / truncated block-header file / file starting above the store tip / first header not connecting to the stored genesis / filter-header file missing / one header missing inside the file / filter source not configured), so that ChainService.Start returns the import error before any subsystem was started, or (c) starts it (Stop right after Start returned, or once synced); seed-chosen public calls are made before Stop (GetUtxo enqueued, a block subscription being registered and read, BestBlock, GetBlockHeader, GetBlock of the only known block, SendTransaction), PersistToDisk on/off; then Stop; then one call of every kind as in the main list, optionally Stop AGAIN and (where Start had been called) Start again; then the database is closed and the directory reopened, and in half of the scenarios a second client WITHOUT the import syncs the chain of 30-120 blocks from the honest peers and is stopped. s=0..3 are fixed (seed-independent): never started; Start failed on a file of another network; Start failed on a file that does not connect, PersistToDisk, reopen and sync; started and synced, Stop, Stop again, Start again. ORACLE: the one of the main list and nothing weaker: Stop returns (40 s watchdog, then the same goroutine-dump argument; the signature of a hang carries state=never-started | start-failed:<what made the import fail> | started); every call made before Stop and every call made after it returns (a repeated Stop and a Start after Stop report nothing by design: returning is the rule for them); the directory reopens with valid stores; the second client reaches the honest tip. Nothing is asserted about Start itself"
 
+// pileRule describes the fifth part of the case list.
+const pileRule = "PILE-UP FAMILY (scenarios after the start-state family, on a pool of their own): Stop while the CHECKPOINTED filter-header sync has many verified cfheaders answers outstanding at once and the one goroutine that writes them to the filter header store is not draining. A chain of 14,000-27,000 blocks (genesis older than 24 h, so the sync takes the work-manager path) is fetched in one round of 6-12 getcfheaders requests of up to 2 checkpoint intervals each (the last of 1 or 2) by 6-12 honest peers = query workers (0-2 of them 10-40 ms slower); every peer HOLDS the request it was given; the writer is taken out: parked at cf.beforeWrite inside the first write of the round (the answer it can write is let through alone), or kept behind the chain-change mutex by a reorganisation of depth 1-6 of the block header tip that is parked at rb.betweenStores / rb.afterBlock (k-th block; the answer the writer can write next is let through once the reorganisation is parked, and a goroutine dump shows the writer inside writeCFHeadersMsg); then ALL peers answer at once (further requests of the round are answered as they come), the harness reads from its event log that the answers of the round have gone out (all of them, or no further one for 400 ms) plus a grace of 20-150 ms, optionally starts callers (GetBlock / GetCFilter / subscription histories / a rescan, peers silent for filters / blocks / neither), and calls Stop; what it parked is released 30-400 ms after Stop was CALLED, or (one in four) 0-3 ms BEFORE Stop is called so that the writer drains while Stop runs. q=0 is fixed (seed-independent): 10 peers, 10 requests, writer parked at cf.beforeWrite, 9 answers released together, Stop, writer released 150 ms later; q>=1 rotate the place (shifted by the seed). Non-trivial only if at least 5 answers went out while the writer was inside a write (measured: counters pileup/*). ORACLE: the one of the main list and nothing else (Stop returns, counted from the release of what the harness holds, 40 s watchdog then the goroutine-dump argument whose signature names where Stop is parked and the frames it waits for; every caller returns; one call of every kind made afterwards returns; the directory reopens with valid stores and a second client reaches the honest tip)"
+
 func main() {
 	one := flag.Int("one", -1, "debug: run this scenario in-process and print its result")
 	verbose := flag.Bool("v", false, "debug: client logs to stdout")
@@ -39,10 +42,15 @@ func main() {
 	// Case list: scenarios 0..nMain-1 are the main list, nMain..nMain+nAPI-1
 	// the peer-state API family (scenario j = k-nMain of c17.APIScenario), the
 	// next the third list (scenario m = k-nMain-nAPI of c17.ExtraScenario), the
-	// rest the start-state family (scenario s = k-nMain-nAPI-nExtra of
-	// c17.StartStateScenario).
-	nMain, nAPI, nExtra, nStart := r.Pick(36, 2500), r.Pick(11, 300), r.Pick(8, 240), r.Pick(8, 48)
+	// next the start-state family (scenario s = k-nMain-nAPI-nExtra of
+	// c17.StartStateScenario), the rest the pile-up family (scenario q =
+	// k-nMain-nAPI-nExtra-nStart of c17.PileScenario).
+	nMain, nAPI, nExtra, nStart, nPile := r.Pick(36, 2500), r.Pick(11, 300), r.Pick(8, 240), r.Pick(8, 48), r.Pick(6, 60)
 	scenario := func(seed int64, k int, res *l2.Result) {
+		if k >= nMain+nAPI+nExtra+nStart {
+			c17.PileScenario(seed, k-nMain-nAPI-nExtra-nStart, res)
+			return
+		}
 		if k >= nMain+nAPI+nExtra {
 			c17.StartStateScenario(seed, k-nMain-nAPI-nExtra, res)
 			return
@@ -61,7 +69,7 @@ func main() {
 		debugOne(scenario, r.Seed, *one, *verbose)
 		return
 	}
-	r.Rule("scenario k: k=0 and k=1 are fixed (a UTXO scan fetching its first block when no peer is connected / when the connected peers never answer getdata; then Stop); for k>=2 the stop state rotates over {idle, k-th headers message of the initial header sync, k-th cfheaders response of the checkpointed / tip filter-header sync, a goroutine of the client parked at each of the 7 pause points (3 of them inside a real reorganisation of depth 1-6 run by rollBackToHeight, 2 inside a filter-header write, 1 before a header batch write, 1 inside a block-subscription registration), GetBlock/GetCFilter pending at silent peers, a storm of 8-16 callers fetching blocks from 4-8 answering peers (workers hand in results while Stop runs), rescan in catch-up / retrying a block / current (each with a goroutine in WaitForShutdown and one in Update), running UTXO batch, broadcast in flight, rebroadcast in flight, block subscriptions with a blocked reader and with a non-reading one holding a backlog, all peers unresponsive, all peers never reading (connection buffers 256-4096 bytes, filled by getheaders the peers provoke), no peer connected}; seed-chosen: chain 50-2500 blocks, 3 retarget presets, headers per message 100-2000, 1-8 peers from {honest, slow, silent, never-reading, flapping} (first one honest), which calls are in flight and how long they have been pending (0-7.8 s: first try / later tries of the query workers), delay between trigger and Stop (0-40 ms), when a parked point is released (30-120 ms after CALLING Stop), PersistToDisk. ORACLE (1) Stop returns; after a 40 s watchdog the verdict is 'violated' only if goroutine dumps taken every 3 s over 36 s show Stop and every goroutine running client code parked in identical frames, none runnable/new/ended, and not one network event; else inconclusive. (2) every call in flight returns within 15 s after Stop returned (otherwise the same dump argument; additionally 'spinning' = inside client code in every dump, goroutines moving, zero network events over 36 s after all subsystems are stopped), with an error or a correct result (nil block / nil filter / 'not found' for an existing output, each with nil error = violation); one call of every kind made AFTER Stop returned must return, with an error unless served from a cache. (3) database and both header stores reopen; block chain passes the reference validator; filter tip <= block tip; every committed filter header equals the ground truth; a second client on the directory reaches the honest tip (a miss is a violation only if its state was stable during the last third of 45 s). distinct = state x peer-kind multiset x behaviour switched on before Stop x in-flight call kinds x outcome; non-trivial = the intended state was reached (trigger fired / point parked / request seen by a peer) and Stop was called in it" + " " + apiRule + " " + extraRule + " " + startRule)
+	r.Rule("scenario k: k=0 and k=1 are fixed (a UTXO scan fetching its first block when no peer is connected / when the connected peers never answer getdata; then Stop); for k>=2 the stop state rotates over {idle, k-th headers message of the initial header sync, k-th cfheaders response of the checkpointed / tip filter-header sync, a goroutine of the client parked at each of the 7 pause points (3 of them inside a real reorganisation of depth 1-6 run by rollBackToHeight, 2 inside a filter-header write, 1 before a header batch write, 1 inside a block-subscription registration), GetBlock/GetCFilter pending at silent peers, a storm of 8-16 callers fetching blocks from 4-8 answering peers (workers hand in results while Stop runs), rescan in catch-up / retrying a block / current (each with a goroutine in WaitForShutdown and one in Update), running UTXO batch, broadcast in flight, rebroadcast in flight, block subscriptions with a blocked reader and with a non-reading one holding a backlog, all peers unresponsive, all peers never reading (connection buffers 256-4096 bytes, filled by getheaders the peers provoke), no peer connected}; seed-chosen: chain 50-2500 blocks, 3 retarget presets, headers per message 100-2000, 1-8 peers from {honest, slow, silent, never-reading, flapping} (first one honest), which calls are in flight and how long they have been pending (0-7.8 s: first try / later tries of the query workers), delay between trigger and Stop (0-40 ms), when a parked point is released (30-120 ms after CALLING Stop), PersistToDisk. ORACLE (1) Stop returns; after a 40 s watchdog the verdict is 'violated' only if goroutine dumps taken every 3 s over 36 s show Stop and every goroutine running client code parked in identical frames, none runnable/new/ended, and not one network event; else inconclusive. (2) every call in flight returns within 15 s after Stop returned (otherwise the same dump argument; additionally 'spinning' = inside client code in every dump, goroutines moving, zero network events over 36 s after all subsystems are stopped), with an error or a correct result (nil block / nil filter / 'not found' for an existing output, each with nil error = violation); one call of every kind made AFTER Stop returned must return, with an error unless served from a cache. (3) database and both header stores reopen; block chain passes the reference validator; filter tip <= block tip; every committed filter header equals the ground truth; a second client on the directory reaches the honest tip (a miss is a violation only if its state was stable during the last third of 45 s). distinct = state x peer-kind multiset x behaviour switched on before Stop x in-flight call kinds x outcome; non-trivial = the intended state was reached (trigger fired / point parked / request seen by a peer) and Stop was called in it" + " " + apiRule + " " + extraRule + " " + startRule + " " + pileRule)
 	r.Assume("exported client knobs are shortened as in l2.init (QueryTimeout 1.5 s, ...); simulated peers implement DESIGN appendix B and never lie; a parked pause point is the harness's doing: Stop may wait for it and its latency is measured from the release; identical stacks of all client goroutines in 13 dumps plus an empty network log over 36 s (the longest timer of the client is the query worker's 32 s) is taken as 'no progress'")
 	n := nMain + nAPI + nExtra
 	if os.Getenv("VERIF_SCRATCH") == "" {
@@ -70,7 +78,7 @@ func main() {
 		defer os.RemoveAll(d)
 	}
 	if l2.IsChild() {
-		l2.RunScenarios(r, n+nStart, 330*time.Second, scenario) // runs the scenario and exits
+		l2.RunScenarios(r, n+nStart+nPile, 330*time.Second, scenario) // runs the scenario and exits
 	}
 	// The start-state family runs next to the other lists: its scenarios are
 	// short, except that one which finds Stop blocked waits for the watchdog
@@ -88,6 +96,17 @@ func main() {
 			ks[i] = n + i
 		}
 		l2.RunScenarioList(r, ks, 16, 330*time.Second, nil)
+	}()
+	// The pile-up family as well: few scenarios, each with a long chain to
+	// generate and sync before its few hundred milliseconds around Stop.
+	wg.Add(1)
+	go func() {
+		defer wg.Done()
+		ks := make([]int, nPile)
+		for i := range ks {
+			ks[i] = n + nStart + i
+		}
+		l2.RunScenarioList(r, ks, 8, 330*time.Second, nil)
 	}()
 	l2.RunScenarios(r, n, 330*time.Second, scenario)
 	wg.Wait()
